@@ -227,6 +227,10 @@ Section Special.
     (* for i in xrange(100) *)
     Definition nr_get_root := nr_get_root_n 100.
 
+    (* nr_get_root is modelled by hand; tools/tr_special.py emits this witness only while the statement sequence of the source
+       is the one modelled above (each early exit returns the sensitivity of the evaluation made AT that end) *)
+    Definition nr_get_root_source_shape : unit := g_nr_get_root_shape.
+
     (* implicit_real: y = fn(constant(xk)); dx_dy = -1/dy_dx; scale the three vectors *)
     Definition finish_implicit (xk dy_dx : V) : res ureal :=
       y <- F (mk_constant N xk None) ;;
